@@ -1,7 +1,7 @@
 (* C04 - amounts print at commodity precision, correctly rounded, and re-read unchanged.
    Property theorems only (proofs: Proofs/RoundProofs.v, Proofs/AmountTextProofs.v). *)
 From LedgerV Require Import Base.Prelude Base.Round Model.Amount Model.AmountText
-  Proofs.RoundProofs Proofs.AmountTextProofs Gen.AmountConsts.
+  Proofs.RoundProofs Proofs.AmountTextProofs Gen.AmountConsts Gen.InvalidChars.
 From Coq Require Import Permutation.
 Local Open Scope Z_scope.
 
@@ -85,6 +85,26 @@ Theorem column_text_of_joined_symbol_is_full_text : forall cp st a,
   st_separated st = false -> amount_text_col cp st a = amount_text cp st a.
 Proof. exact column_text_unseparated. Qed.
 Print Assumptions column_text_of_joined_symbol_is_full_text.
+
+(* the printed symbol is read back whole: symbol_text quotes a symbol exactly when the reader (which stops at the first
+   character of the regenerated invalid_chars table) would stop inside it.  Hypotheses: the symbol is not empty, does not
+   begin with white space, holds no double quote and is not a reserved word; what follows it in the text is the end or a
+   character the reader stops at (a blank, a digit, a sign - as in every printed amount) *)
+Theorem printed_symbol_reads_back : forall sym rest c0 s0,
+  sym = c0 :: s0 -> is_space c0 = false ->
+  existsb (fun c => c =? 34) sym = false ->
+  existsb (str_eqb sym) src_reserved_words = false ->
+  (match rest with [] => True | c :: _ => is_invalid c = true end) ->
+  read_symbol (symbol_text sym ++ rest) = Ok (sym, rest).
+Proof. exact symbol_text_reads_back. Qed.
+Print Assumptions printed_symbol_reads_back.
+
+Example ex_symbols_read_back :
+  read_symbol (symbol_text [81; 126; 90] ++ [32; 49]) = Ok ([81; 126; 90], [32; 49]) /\      (* "Q~Z" 1 : quoted *)
+  symbol_text [81; 126; 90] = [34; 81; 126; 90; 34] /\
+  read_symbol (symbol_text [69; 85; 82] ++ [32; 49]) = Ok ([69; 85; 82], [32; 49]) /\         (* EUR 1 : bare *)
+  symbol_text [69; 85; 82] = [69; 85; 82].
+Proof. vm_compute. repeat split. Qed.
 
 (* print -> re-read, plain decimal texts (digits and a decimal point): the reader recovers
    exactly the integer and the precision that were printed.  PARTIAL: thousands marks, decimal
